@@ -638,6 +638,11 @@ theorem insert_at_output_edges_is_well_formed {c : Dag} (h : DagInv c) {op : Op}
     InsertOK c op es := by
   obtain ⟨P, g⟩ := h; exact insertOK_of_output_edges g hmem hkeys hdst
 
+/-- the hypotheses are met by the solver's call on a fresh `CircuitDAG(1, 1, 0)`: a two-qubit gate on the first edges of `e0` and `p0` -/
+example : InsertOK (Dag.init 1 1 0) cnotE0P0 [⟨.inp ⟨.e, 0⟩, .out ⟨.e, 0⟩, ⟨.e, 0⟩⟩, ⟨.inp ⟨.p, 0⟩, .out ⟨.p, 0⟩, ⟨.p, 0⟩⟩] :=
+  insert_at_input_edges_is_well_formed (init_dagInv 1 1 0) (by decide) rfl
+    (by intro e he; simp at he; rcases he with rfl | rfl <;> exact ⟨_, rfl⟩)
+
 /-! ## 10. `find_incompatible_edges`: exactly which edges are reported -/
 
 /-- **Characterisation.**  With `anc` / `desc` meeting the recorded networkx specification, `find_incompatible_edges(first)`
